@@ -622,6 +622,26 @@ Proof.
   exact (sharded_iterate_under_faults size lg Hperm H H_wf H_len (mrun ops) rt sz Hem Hn Hb fault).
 Qed.
 
+(* length() / the preloading reifier on a reference-written shard under ANY availability: only shard blocks of the directory are
+   requested, all of them when available, and a count is returned only if every one of them is available *)
+Corollary ref_history_length_under_faults size lg (Hperm : permitted size lg) (H : bytes -> bytes)
+  (H_wf : forall k, wf_bytes (H k) = true) (H_len : forall k, length (H k) = 8%nat) fuel ops t :
+  Forall (hop_ok H) ops -> hrun lg fuel ops = Ok t ->
+  let root := fst (serialize_node size HashMurmur3 (pad_len size) (BShard t)) in
+  exists shards : list blk,
+    Forall (fun x => exists sh, mk_shard_of x = Ok sh) shards /\
+    forall fault,
+      incl (snd (shard_length fault root)) shards
+      /\ (forall m, fst (shard_length fault root) = Ok m -> Forall (fun t => fault t = None) shards)
+      /\ (Forall (fun t => fault t = None) shards ->
+          fst (shard_length fault root) = Ok (N.of_nat (length (mrun ops))) /\ Permutation (snd (shard_length fault root)) shards).
+Proof.
+  intros Hops Hr root.
+  destruct (ref_history_is_the_built_directory size lg Hperm H H_wf H_len fuel ops t Hops Hr) as (Hem & Hn & Hb).
+  destruct (serialize_node size HashMurmur3 (pad_len size) (BShard t)) as [rt sz] eqn:Es. subst root. cbn [fst].
+  exact (sharded_length_under_faults size lg Hperm H H_wf H_len (mrun ops) rt sz Hem Hn Hb).
+Qed.
+
 (* non-vacuity: a history with a fork, a replacement, a removal that collapses a sub-shard and a removal of an absent name *)
 Definition demo_ops : list hop :=
   [HSet (demo_entry [65] 1); HSet (demo_entry [65; 1] 3); HSet (demo_entry [65; 1; 2] 5); HSet (demo_entry [66] 2);
